@@ -1119,7 +1119,7 @@ static void interleave_case(uint64_t idx, void *arg)
                 build(&b, a.pk, 2, order, 5, 1); stream_str(&b, st, sizeof st);
                 mc_sample("interleave stream (one cycle, hex pairs): %s = start(0,0x10) 2 bytes | start(0,0x11) 1 byte+filler | caption control, text | continue(0,0x10) 1 byte+filler, terminator | continue(0,0x11) 1 byte+filler, terminator", st);
         }
-        if ((c->kind == 1 && idx % 97 == 0) || (c->kind == 2 && c->s0 == 1 && c->s1 == 4 && c->ncap == 1))
+        if ((c->kind == 1 && c->ks == 0 && c->s0 == 2 && c->s1 == 2 && c->s2 == 1) || (c->kind == 2 && c->ks == 0 && c->s0 == 1 && c->s1 == 4 && c->ncap == 1))
                 mc_sample("interleave: (%d,0x%02x) cut %d|%d|%d x (%d,0x%02x) cut %d|%d|%d%s + %d caption burst(s): %llu merges x 2 cycles", a.pk[0].cls, a.pk[0].type,
                           a.pk[0].seg[0], a.pk[0].nseg > 1 ? a.pk[0].seg[1] : 0, a.pk[0].nseg > 2 ? a.pk[0].seg[2] : 0, a.pk[1].cls, a.pk[1].type,
                           a.pk[1].seg[0], a.pk[1].nseg > 1 ? a.pk[1].seg[1] : 0, a.pk[1].nseg > 2 ? a.pk[1].seg[2] : 0, a.np == 3 ? " x third packet" : "", c->ncap,
